@@ -312,8 +312,52 @@ def tree_shapes(max_secs):
             yield f
 
 
-def build_doc(shape, rnd, rich=True, names=None, props_per_sec=(0, 1, 2)):
-    """Build a document from a forest shape; attributes/values chosen by rnd."""
+HOSTILE_TEXT = ['Gr\u00f6\u00dfe', '\u00e9t\u00e9 \u20ac', '\u65e5\u672c', 'a\u0308', '\U0001d707V']
+
+
+def build_doc(shape, rnd, rich=True, names=None, props_per_sec=(0, 1, 2), hostile=False):
+    """Build a document from a forest shape; attributes/values chosen by rnd.
+    hostile=True adds the legal but unusual features that small hand-made documents never have:
+    objects created without a name (name == id), a Property named like a sibling Section, sibling names
+    that differ only in letter case, non-ASCII text everywhere, the same content at several places (clones
+    of a subtree attached under another parent)."""
+    if hostile:
+        doc = build_doc(shape, rnd, rich=rich, names=names, props_per_sec=props_per_sec)
+        with quiet():
+            secs, props = walk(doc)
+            for sec in secs:
+                kids = [x.name for x in list.__iter__(sec._sections)]
+                if kids and rnd.random() < 0.5 and kids[0] not in [p.name for p in list.__iter__(sec._props)]:
+                    # a Property named like a child Section of the same parent
+                    odml.Property(name=kids[0], values=['same name as a Section'], parent=sec)
+                if rnd.random() < 0.3:
+                    odml.Property(values=[1, 2], parent=sec)          # unnamed: the name is the id
+                if rnd.random() < 0.25:
+                    odml.Section(type='unnamed', parent=sec)          # unnamed Section
+                if rnd.random() < 0.4:
+                    sec.definition = rnd.choice(HOSTILE_TEXT)
+                up = sec.name.upper()
+                par = sec._parent
+                if up != sec.name and rnd.random() < 0.4 and up not in [x.name for x in list.__iter__(par._sections)]:
+                    odml.Section(name=up, type=sec.type, parent=par)  # differs from a sibling in case only
+            for prop in props:
+                if rnd.random() < 0.3:
+                    prop.unit = rnd.choice(HOSTILE_TEXT)
+                if prop.dtype in ('string', 'text') and rnd.random() < 0.4:
+                    prop.values = list(prop.values) + [rnd.choice(HOSTILE_TEXT)]
+            if rnd.random() < 0.6:
+                doc.author = rnd.choice(HOSTILE_TEXT)
+            secs, _ = walk(doc)
+            if secs and rnd.random() < 0.7:
+                # the same content at two places: a clone (new ids) under another parent
+                src = rnd.choice(secs)
+                targets = [t for t in [doc] + secs
+                           if t is not src._parent and t is not src
+                           and src.name not in [x.name for x in list.__iter__(t._sections)]]
+                targets = [t for t in targets if not _below(t, src)]
+                if targets:
+                    rnd.choice(targets).append(src.clone())
+        return doc
     with quiet():
         doc = odml.Document(author=rnd.choice([None, 'me', 'Ann B.']),
                             version=rnd.choice([None, '1.0', 'v2']),
@@ -367,8 +411,17 @@ def build_doc(shape, rnd, rich=True, names=None, props_per_sec=(0, 1, 2)):
     return doc
 
 
-def gen_docs(tier, seed, max_secs=None, per_shape=None, rich=True):
-    """Documents over all forest shapes up to max_secs sections; per_shape random attribute fillings."""
+def _below(node, anc):
+    while node is not None:
+        if node is anc:
+            return True
+        node = getattr(node, '_parent', None)
+    return False
+
+
+def gen_docs(tier, seed, max_secs=None, per_shape=None, rich=True, hostile=True):
+    """Documents over all forest shapes up to max_secs sections; per_shape random attribute fillings,
+    followed (hostile=True) by one 'hostile' filling per shape (see build_doc)."""
     if max_secs is None:
         max_secs = 3 if tier == 'quick' else 4
     if per_shape is None:
@@ -377,6 +430,12 @@ def gen_docs(tier, seed, max_secs=None, per_shape=None, rich=True):
     for shape in tree_shapes(max_secs):
         for _ in range(per_shape):
             yield build_doc(shape, rnd, rich=rich)
+    if hostile:
+        rnd2 = random.Random('hostile-%s' % seed)
+        for shape in tree_shapes(max_secs):
+            if shape:
+                for _ in range(1 if tier == 'quick' else 3):
+                    yield build_doc(shape, rnd2, rich=rich, hostile=True)
 
 
 def walk(root):
